@@ -5,16 +5,18 @@ PROP = dict(
     extract=["editor"],
     lean_targets=["Chewing.Props.C07"],
     runs=[dict(bin="editor", args=["--profile", "c07"], args_thorough=["--profile", "c07"])],
-    scope=fn_scope("ed key", "ed select", "ed startsel", "ed cancelsel", "ed jump", "ed setopts", "ed cands"),
+    scope=fn_scope("ed key", "ed select", "ed startsel", "ed cancelsel", "ed jump", "ed setopts", "ed setlayout",
+                   "ed setengine", "ed learn", "ed unlearn", "ed cands"),
     level="proof",
     exhaustive=False,
     rule="one evaluation = one step of the real editor (key, select(n), start/cancel_selecting, jump_to_*_selection_point, "
-         "set_editor_options) or one round of the candidate getters (all_candidates, paginated_candidates, total_page, "
+         "set_editor_options, set_syllable_editor, set_conversion_engine, learn_phrase, unlearn_phrase) or one round of the candidate getters (all_candidates, paginated_candidates, total_page, "
          "current_page_no: record `ed cands`, emitted after every step that leaves a list open), recomputed by the model from "
          "the implementation's own complete pre-state; generated histories: selection-heavy profile (page sizes 1..3 half of "
          "the time, 1..10 otherwise; forward and rearward choice; lists opened by Down/Space/start_selecting/grave/Ctrl-0/1, "
          "moved by Down/Space/j/k/jump 0..3, paged by Left/Right/PageUp/PageDown/Space; choices by digit key and select(n) "
-         "incl. n beyond the list and usize::MAX; option/layout changes and removal of displayed user phrases while open); "
+         "incl. n beyond the list and usize::MAX; option/layout changes and removal of displayed user phrases while open, incl. removing the only (user) phrase of the "
+         "highlighted range so that the open list becomes empty); "
          "distinct = distinct record text",
     trusted_base=["hook H1 (Editor::verif_snapshot, TrieBuf::verif_snapshot) is read-only; layout / conversion answers are "
                   "recorded through wrapper objects installed through the public constructors",
@@ -23,10 +25,11 @@ PROP = dict(
     assumptions=["page size >= 1 (the C API validates 1..10; the Rust API does not: per = 0 makes total_page panic, "
                  "Props/C07 per_page_zero_panics)",
                  "theorems hold for every environment; hypotheses on it are explicit: FlushKeepsLookups (the reopen+flush "
-                 "after a key does not change lookup answers - C09/C10's subject) for the page invariant; RangeIs (the "
-                 "highlighted symbols are syllables) for completeness - a theorem (range_is_syllables_partial, through C01's "
-                 "invariant) except for jump_to_*_selection_point on an open phrase list, where it rests on correspondence + "
-                 "oracle",
+                 "after a key does not change lookup answers - C09/C10's subject) and ClearSylKeepsAlt (a layout's table of "
+                 "alternative syllables does not depend on the content of the phonetic buffer: alt_syllables is a constant "
+                 "table in every SyllableEditor implementation, by reading) for the page invariant; C01's EnvOK + the "
+                 "reachable-state invariant + not C01's recorded class F02/F03 for range_is_syllables and for completeness "
+                 "without the RangeIs premise (phrase_list_complete itself holds for every environment, with the premise)",
                  "env.lookupAll is Layered::lookup_all_phrases (system layers + user layer minus removed entries); that "
                  "it returns what the layers hold is checked by the oracle against the raw layers, and is C09's theorem",
                  "the C glue (chewing_cand_*) is modelled in Model/Candidates.lean as thin wrappers of the Rust getters "
@@ -42,11 +45,15 @@ MANIFEST = dict(
          "starts at item p*per); page_count (total_page = ceil(n/per): least k with n <= k*per, closed form n/per + [n%per!=0]); "
          "pages_partition + page_item (for every list, page size >= 1 and page index: pages 0..count-1 concatenated are the "
          "list, all but the last full, each non-empty and <= per, pages beyond the count empty, item i of page p is item "
-         "p*per+i); page_in_range_key / page_in_range_op / page_in_range_partial (current page < page count, or nothing "
-         "listed, is an invariant of every key event - all arms of all four states -, select(n), the four jumps, "
-         "start/cancel_selecting, commit, reset, and of every history without a configuration/dictionary call made while a "
-         "list is open; every opening / re-targeting starts at page 0); page_in_range_refuted (F32: with such a call the "
-         "invariant fails - concrete witness evaluated in the model); offset_item / offset_is_page_item, choose_phrase, "
+         "p*per+i); page_in_range_key / page_in_range_op / page_in_range (FULL: current page < page count, or nothing "
+         "listed, is an invariant of EVERY operation and hence every history - key events in all arms of all four states, "
+         "select(n), the four jumps, start/cancel_selecting, commit, reset, and - since the F32 repair - the option / layout / "
+         "engine / dictionary calls made while a list is open; every opening / re-targeting starts at page 0); "
+         "revalidate_in_range / reconfigured_list_in_range (after set_editor_options / set_syllable_editor / learn_phrase / "
+         "unlearn_phrase a list that is still open is non-empty and its page strictly below the page count: the calls end with "
+         "revalidate_selecting, which clamps the page and closes a list that became empty); f32_history_repaired, "
+         "f32_empty_list_closed (the two former F32 witnesses evaluated in the model: page 1 of 1 -> page 0 with both "
+         "candidates enumerated; list emptied by userphrase_remove -> closed, saved cursor restored); offset_item / offset_is_page_item, choose_phrase, "
          "choose_places, choose_phrase_closes, editor_choose_closes (choosing n on page p of a phrase list pushes exactly item "
          "p*per+n as the selection of begin..end, replaces exactly the overlapping earlier choices (C04), restores the saved "
          "cursor, closes the list; the saturating usize arithmetic is unobservable); choose_out_of_range_rejected / "
@@ -60,20 +67,26 @@ MANIFEST = dict(
          "incl. indices beyond the list and usize::MAX). choose_special / choose_symbol (symbol lists: the listed character is inserted / replaces the symbol under "
          "the cursor, a category opens its sub-table on page 0); opened_phrase_list_in_range / init_range (a freshly opened "
          "phrase list is non-empty, on page 0, strictly in range, over a non-empty part of the buffer for which the "
-         "dictionary has a phrase). range_is_syllables_partial (the highlighted range of an open phrase list consists of "
-         "syllables - the premise RangeIs of phrase_list_complete - after every history covered by C01's reachable-state "
-         "invariant: all key events in all states, select(n), start/cancel selecting, commit, reset, option/layout/engine/"
-         "dictionary calls, under C01's EnvOK, minus C01's recorded class F02/F03 and minus jump_to_*_selection_point while a "
-         "phrase list is open); f40_history_repaired (the former F40 witness history evaluated in the model: the range stays the "
-         "syllable). NOT YET THEOREMS: range_is_syllables_full (the same for EVERY environment and history incl. the four jumps on "
-         "an open phrase list - stated as a def, neither proved nor refuted any more; correspondence + oracle only), that the "
-         "opened range is the longest one with a phrase (oracle check D only). F04, F08, the missing page reset of j/k/jump, "
+         "dictionary has a phrase). range_is_syllables : range_is_syllables_full (the highlighted range of an open phrase list is a "
+         "non-empty run of syllables inside the editor's own buffer after EVERY history of valid operations from a state "
+         "satisfying C01's reachable-state invariant, under C01's EnvOK, outside C01's recorded class F02/F03 - all key events "
+         "in all states incl. Down/Space cycling, select(n), start/cancel selecting, commit, reset, option/layout/engine/"
+         "dictionary calls and the four jump_to_*_selection_point calls on an open phrase list, which C01's invariant now "
+         "covers through the Anchor of the range); open_phrase_list_complete / phrase_list_complete_reached (completeness "
+         "WITHOUT the premise RangeIs in every such state); opened_range_longest + initLoop_longest (for every environment: the "
+         "range PhraseSelector::init returns - opening, j/k, cand_list_first - is the longest one at the cursor with a phrase: "
+         "no longer range up to the break point has one; what oracle check D evaluates); f40_history_repaired (the former F40 "
+         "witness history evaluated in the model: the range stays the syllable). Termination of the selector loops (init, next, "
+         "next/prev_selection_point, jump_to_last: fuel sufficiency with the progress argument) is C01's selector_loops_terminate / "
+         "init_terminates. NOT A THEOREM: range_is_syllables_unconditional (the hypothesis-free form: every environment, also "
+         "ones whose dictionary breaks its contract, and C01's class F02/F03 - stated as a def, neither proved nor refuted). F04, F08, the missing page reset of j/k/jump, "
          "the symbol lists' answer to an out-of-range choice and F40 (chewing_cand_list_first on the simple engine's "
          "single-word list swallowed a following non-syllable symbol; found by the thorough tier, repaired by C01's fix "
          "'init_single_word remembers the position of the word'; the refutation range_is_syllables_refuted was deleted because "
-         "it is no longer true, and the oracle class is gone: a recurrence is reported as new) were repaired by fix: commits; "
-         "F32 (stale page after a configuration/dictionary call while a list is open) is the one known finding, with an exact "
-         "oracle class.",
+         "it is no longer true, and the oracle class is gone: a recurrence is reported as new) and F32 (stale page / open empty "
+         "list after an option / layout / dictionary call made while a list is open; page_in_range_refuted and the _partial "
+         "theorem were replaced by the full page_in_range, the oracle class F32-stale-page is gone) were repaired by fix: "
+         "commits; no known finding is left for C07.",
     note="Trusted: Lean kernel (standard axioms), read-only snapshot hooks, harness + compiled model driver. The C functions "
          "chewing_cand_* are modelled by reading (thin wrappers over the Rust getters the correspondence drives).",
     technique="Lean 4 proof (list/division arithmetic for all lists and page sizes; invariant by case analysis over every arm "
